@@ -33,6 +33,9 @@ type MethodType struct {
 	TypePackage string
 	IsPointer   bool
 	IsVariadic  bool
+
+	// typ is the go/types type this entry was built from (nil for hand-built models).
+	typ types.Type
 }
 
 // LoadTypes loads specified named types from the current package
@@ -170,6 +173,7 @@ func extractMethodTypesFromTuple(tuple *types.Tuple, isVariadic bool) []MethodTy
 	for i := 0; i < tuple.Len(); i++ {
 		param := tuple.At(i)
 		result[i] = convertTypesToMethodType(param.Type())
+		result[i].typ = param.Type()
 
 		// Mark last parameter as variadic if needed
 		if isVariadic && i == tuple.Len()-1 {
@@ -179,6 +183,7 @@ func extractMethodTypesFromTuple(tuple *types.Tuple, isVariadic bool) []MethodTy
 			if slice, ok := param.Type().(*types.Slice); ok {
 				result[i] = convertTypesToMethodType(slice.Elem())
 				result[i].IsVariadic = true
+				result[i].typ = slice.Elem()
 			}
 		}
 	}
